@@ -12,7 +12,11 @@
 (* Staging (C09, C10).                                                     *)
 (*                                                                         *)
 (* AST nodes are records with a constructor field k (Appendix A of         *)
-(* DESIGN.md).  Values: integers, tuples (sequences of values), closures.  *)
+(* DESIGN.md).  Values: integers, tuples and arrays (sequences of values), *)
+(* records (functions from field names to values), closures.  Records      *)
+(* (literal, field access, update, field assignment), arrays (literal,     *)
+(* index, len) and the numeric match were added in the fourth session; the *)
+(* initialisers of a record run in the order they are written.             *)
 (* A call site is identified by its position in the enclosing function     *)
 (* body (sequence of child indices); the state of a call-tree node is      *)
 (* keyed by the sequence of call-site positions leading to it.             *)
@@ -37,6 +41,16 @@ App(f, as)    == [k |-> "app", f |-> f, as |-> as]           \* f evaluates to a
 Call(f, as)   == [k |-> "call", f |-> f, as |-> as]          \* f names a global function
 Mem(a)        == [k |-> "mem", a |-> a]
 Delay(n, a, t) == [k |-> "delay", n |-> n, a |-> a, t |-> t]
+(* records (fs: sequence of [n |-> field name, a |-> initialiser], in the order they are written), arrays,  *)
+(* numeric match with literal keys and a default arm                                                         *)
+RecE(fs)         == [k |-> "rec", fs |-> fs]
+Fld(a, n)        == [k |-> "fld", a |-> a, n |-> n]
+RecUpd(a, fs)    == [k |-> "recupd", a |-> a, fs |-> fs]       \* { a <- n1 = e1, ... }
+AsgF(x, n, a, b) == [k |-> "asgf", x |-> x, n |-> n, a |-> a, b |-> b]   \* x.n = a; b
+ArrE(es)         == [k |-> "arr", es |-> es]
+Idx(a, i)        == [k |-> "idx", a |-> a, i |-> i]
+LenE(a)          == [k |-> "len", a |-> a]
+MatchE(s, keys, arms, d) == [k |-> "match", s |-> s, keys |-> keys, arms |-> arms, d |-> d]
 
 SampleRate == 48000
 
@@ -156,6 +170,43 @@ Eval(C, e, env, path, pos, S) ==
              p  == Append(path, pos)
              st == DelayStep(GetCell(rt.S.c, p, DelayZero(e.n)), e.n, ra.v, rt.v)
          IN [v |-> st.v, S |-> [rt.S EXCEPT !.c = PutCell(rt.S.c, p, st.cell)]]
+    \* a record value is a function from field names to values; the initialisers run in the order they are
+    \* written (the layout of the record is not observable)
+    [] e.k = "rec" ->
+         LET n == Len(e.fs)
+             r == EvalSeq(C, [i \in 1..n |-> e.fs[i].a], 1, env, path, pos, S)
+         IN [v |-> [f \in {e.fs[i].n : i \in 1..n} |-> r.vs[CHOOSE i \in 1..n : e.fs[i].n = f]], S |-> r.S]
+    [] e.k = "fld" ->
+         LET r == Eval(C, e.a, env, path, Append(pos, 1), S) IN [v |-> r.v[e.n], S |-> r.S]
+    [] e.k = "recupd" ->
+         LET n == Len(e.fs)
+             rb == Eval(C, e.a, env, path, Append(pos, 1), S)
+             r == EvalSeq(C, [i \in 1..n |-> e.fs[i].a], 1, env, path, Append(pos, 2), rb.S)
+         IN [v |-> [f \in DOMAIN rb.v |-> IF \E i \in 1..n : e.fs[i].n = f
+                                            THEN r.vs[CHOOSE i \in 1..n : e.fs[i].n = f] ELSE rb.v[f]],
+             S |-> r.S]
+    [] e.k = "asgf" ->      \* a record variable holds a value: assigning a field replaces the variable's value
+         LET ra == Eval(C, e.a, env, path, Append(pos, 1), S)
+             loc == IF e.x \in DOMAIN env THEN env[e.x] ELSE C.genv[e.x]
+         IN Eval(C, e.b, env, path, Append(pos, 2),
+                 [ra.S EXCEPT !.h = [ra.S.h EXCEPT ![loc] = [@ EXCEPT ![e.n] = ra.v]]])
+    [] e.k = "arr" ->
+         LET r == EvalSeq(C, e.es, 1, env, path, pos, S) IN [v |-> r.vs, S |-> r.S]
+    [] e.k = "idx" ->       \* an index outside the array is outside the model
+         LET ra == Eval(C, e.a, env, path, Append(pos, 1), S)
+             ri == Eval(C, e.i, env, path, Append(pos, 2), ra.S)
+             ok == ri.v >= 0 /\ ri.v < Len(ra.v)
+         IN [v |-> IF ok THEN ra.v[ri.v + 1] ELSE 0,
+             S |-> IF ok THEN ri.S ELSE [ri.S EXCEPT !.oom = TRUE]]
+    [] e.k = "len" ->
+         LET r == Eval(C, e.a, env, path, Append(pos, 1), S) IN [v |-> Len(r.v), S |-> r.S]
+    [] e.k = "match" ->     \* the first arm whose key equals the scrutinee, else the default arm
+         LET rs == Eval(C, e.s, env, path, Append(pos, 1), S)
+             hit == {i \in 1..Len(e.keys) : e.keys[i] = rs.v}
+         IN IF hit # {}
+            THEN LET i == CHOOSE i \in hit : \A j \in hit : i <= j
+                 IN Eval(C, e.arms[i], env, path, Append(pos, 1 + i), rs.S)
+            ELSE Eval(C, e.d, env, path, Append(pos, Len(e.keys) + 2), rs.S)
 
 (* operands / arguments / tuple elements: left to right *)
 EvalSeq(C, es, i, env, path, pos, S) ==
@@ -245,6 +296,16 @@ RenameE(sigma, e) ==
        [] e.k = "call" -> [e EXCEPT !.f = Ren(sigma, e.f), !.as = RS(e.as)]
        [] e.k = "mem"  -> [e EXCEPT !.a = R(e.a)]
        [] e.k = "delay" -> [e EXCEPT !.a = R(e.a), !.t = R(e.t)]
+       \* field names are user-chosen identifiers as well
+       [] e.k = "rec"  -> [e EXCEPT !.fs = [i \in 1..Len(e.fs) |-> [n |-> Ren(sigma, e.fs[i].n), a |-> R(e.fs[i].a)]]]
+       [] e.k = "fld"  -> [e EXCEPT !.a = R(e.a), !.n = Ren(sigma, e.n)]
+       [] e.k = "recupd" -> [e EXCEPT !.a = R(e.a),
+                                      !.fs = [i \in 1..Len(e.fs) |-> [n |-> Ren(sigma, e.fs[i].n), a |-> R(e.fs[i].a)]]]
+       [] e.k = "asgf" -> [e EXCEPT !.x = Ren(sigma, e.x), !.n = Ren(sigma, e.n), !.a = R(e.a), !.b = R(e.b)]
+       [] e.k = "arr"  -> [e EXCEPT !.es = RS(e.es)]
+       [] e.k = "idx"  -> [e EXCEPT !.a = R(e.a), !.i = R(e.i)]
+       [] e.k = "len"  -> [e EXCEPT !.a = R(e.a)]
+       [] e.k = "match" -> [e EXCEPT !.s = R(e.s), !.arms = RS(e.arms), !.d = R(e.d)]
 
 (* dsp keeps its name (it is the entry point, not a user-chosen identifier) *)
 RenameProg(sigma, prog) ==
